@@ -1,4 +1,5 @@
-use std::io;
+use std::fs::File;
+use std::io::{self, BufRead};
 
 use crate::builtins::utils::print_stderr_with_capture;
 use crate::shell::Shell;
@@ -38,6 +39,18 @@ pub fn run(sh: &mut Shell, cl: &CommandLine, cmd: &Command,
         if let Some(redirect_from) = &cmd.redirect_from {
             buffer.push_str(&redirect_from.1);
             buffer.push('\n');
+        }
+    } else if let Some(redirect_from) = &cmd.redirect_from {
+        // `read NAME < file`: the line comes from the named file, not from
+        // the shell's own standard input
+        let result = match File::open(&redirect_from.1) {
+            Ok(f) => io::BufReader::new(f).read_line(&mut buffer),
+            Err(e) => Err(e),
+        };
+        if let Err(e) = result {
+            let info = format!("cicada: read: {}: {}", redirect_from.1, e);
+            print_stderr_with_capture(&info, &mut cr, cl, cmd, capture);
+            return cr;
         }
     } else {
         match io::stdin().read_line(&mut buffer) {
